@@ -370,3 +370,28 @@ def list_extensions(root: ast.AST):
                 and len(n.value.args) == 1 and not n.value.keywords:
             out.append((n, n.value.func.value, n.value.args[0]))
     return out
+
+
+def const_value(ss, short: str, e: ast.AST, depth: int = 0):
+    """The constant an expression denotes, read from the source: literals, `'a b'.split()`, list()/tuple() of a constant,
+    and module-level names bound once to such an expression.  Raises ValueError when it is not a constant."""
+    if depth > 4:
+        raise ValueError("too deep")
+    if isinstance(e, ast.Constant):
+        return e.value
+    if isinstance(e, (ast.List, ast.Tuple)):
+        return [const_value(ss, short, x, depth + 1) for x in e.elts]
+    if isinstance(e, ast.Call) and isinstance(e.func, ast.Attribute) and e.func.attr == "split" and not e.keywords and len(e.args) <= 1:
+        base = const_value(ss, short, e.func.value, depth + 1)
+        args = [const_value(ss, short, a, depth + 1) for a in e.args]
+        if isinstance(base, str):
+            return base.split(*args)
+    if isinstance(e, ast.Call) and isinstance(e.func, ast.Name) and e.func.id in ("list", "tuple") and len(e.args) == 1 and not e.keywords:
+        return list(const_value(ss, short, e.args[0], depth + 1))
+    if isinstance(e, ast.Name):
+        binds = [st for st in ss.tree(short).body if isinstance(st, (ast.Assign, ast.AnnAssign))
+                 and any(isinstance(t, ast.Name) and t.id == e.id for t in (st.targets if isinstance(st, ast.Assign) else [st.target]))]
+        rebound = [n for n in ast.walk(ss.tree(short)) if isinstance(n, ast.Name) and n.id == e.id and isinstance(n.ctx, (ast.Store, ast.Del))]
+        if len(binds) == 1 and len(rebound) == 1 and binds[0].value is not None:
+            return const_value(ss, short, binds[0].value, depth + 1)
+    raise ValueError(f"`{ast.unparse(e)[:60]}` is not a constant")
